@@ -393,6 +393,47 @@ _INHERENT_IMPL = __import__("re").compile(r"(?:[A-Za-z_][A-Za-z_0-9]*::)+<impl (
 _FOREIGN_ROOTS = ("core", "alloc", "std", "serde", "serde_core", "arbitrary", "castaway", "itoa", "ryu")
 
 
+_TRAIT_IMPL_HEAD = __import__("re").compile(r"((?:[A-Za-z_][A-Za-z_0-9]*::)+)<impl ")
+
+
+def _normalise_trait_impls(txt):
+    """`convert::<impl From<&str> for LeanString>::from` (a trait impl written in a module of the crate)
+    is the same function as `<LeanString as From<&str>>::from` (the same impl written at the root):
+    name it the second way, so that moving impls into modules renames nothing"""
+    out, pos = [], 0
+    for m in _TRAIT_IMPL_HEAD.finditer(txt):
+        if m.start() < pos:
+            continue
+        if m.group(1).split("::", 1)[0] in _FOREIGN_ROOTS:
+            continue
+        # the character before must not be part of a longer path
+        if m.start() > 0 and (txt[m.start() - 1].isalnum() or txt[m.start() - 1] in "_:"):
+            continue
+        i, depth, n = m.end(), 1, len(txt)
+        split = None
+        while i < n and depth > 0:
+            c = txt[i]
+            if c == "<":
+                depth += 1
+            elif c == ">" and txt[i - 1] != "-":
+                depth -= 1
+                if depth == 0:
+                    break
+            elif c == "\"" or c == "\n":
+                break
+            elif depth == 1 and txt.startswith(" for ", i) and split is None:
+                split = i
+            i += 1
+        if depth != 0 or split is None:
+            continue      # an inherent impl (`<impl Type>`), or not an impl header: left alone
+        trait, ty = txt[m.end():split], txt[split + 5:i]
+        out.append(txt[pos:m.start()])
+        out.append("<%s as %s>" % (ty, trait))
+        pos = i + 1
+    out.append(txt[pos:])
+    return "".join(out)
+
+
 def _load_sigs():
     global _SIGS, _ANCHOR_NAMES
     if _SIGS is None:
@@ -540,16 +581,69 @@ def resolve_renames(txt):
     if not sigs:
         return txt, done
     import re as _re
+    grew = False
     for _ in range(6):
         j = json.loads(txt)
         m = _adt_aliases(j, sigs) or _const_aliases(j, sigs) or _fn_aliases(j, sigs, anchor_names)
         m = {k: v for k, v in m.items() if k not in done}
-        if not m:
+        if not m and _ > 0 and not grew:
             break
+        grew = False
         for new, old in sorted(m.items(), key=lambda kv: -len(kv[0])):
             txt = _re.sub(r"(?<![A-Za-z0-9_:])" + _re.escape(new) + r"(?![A-Za-z0-9_])", lambda mm: old, txt)
         done.update(m)
-    return txt, done
+        # a module that was renamed: two or more of its items were matched with items of one and the
+        # same reference module, none with another, and the new module name does not exist on the
+        # reference tree - then everything else in it moves along (the next round matches its types
+        # and functions container by container)
+        votes = {}
+        for new, old in done.items():
+            if new.startswith("<") or old.startswith("<") or "::" not in new or "::" not in old:
+                continue
+            nm, om = new.rsplit("::", 1)[0], old.rsplit("::", 1)[0]
+            if nm != om and new.rsplit("::", 1)[1] == old.rsplit("::", 1)[1]:
+                votes.setdefault(nm, {}).setdefault(om, 0)
+                votes[nm][om] += 1
+        # a nested item that was matched names its parent: `<R as UnwrapDisplay>::unwrap_display::panic_display`
+        # = `<R as UnwrapWithMsg>::unwrap_with_msg::do_panic_with_msg` makes the enclosing functions the same
+        have = {f["path"] for f in json.loads(txt)["fns"]}
+        for new, old in list(done.items()):
+            if "::" not in new or "::" not in old or new.startswith("mod:"):
+                continue
+            pn, po = new.rsplit("::", 1)[0], old.rsplit("::", 1)[0]
+            if pn != po and pn in have and pn not in anchor_names and po in anchor_names and po not in have and pn not in done:
+                txt = _re.sub(r"(?<![A-Za-z0-9_:])" + _re.escape(pn) + r"(?![A-Za-z0-9_])", lambda mm: po, txt)
+                done[pn] = po
+        # the same two inferences from matched trait-impl methods: `<u8 as repr::into_repr::DigitCount>::f`
+        # = `<u8 as repr::num_to_repr::DigitCount>::f` votes for the module, `<u8 as M::IntoRepr>::f` =
+        # `<u8 as M::NumToRepr>::f` (several times, consistently) for the trait's new name
+        tvotes = {}
+        for new, old in done.items():
+            mn, mo = _re.match(r"^<.* as ([A-Za-z_0-9:]+)(?:<.*>)?>::", new), _re.match(r"^<.* as ([A-Za-z_0-9:]+)(?:<.*>)?>::", old)
+            if not mn or not mo or mn.group(1) == mo.group(1) or "::" not in mn.group(1) or "::" not in mo.group(1):
+                continue
+            (nmod, nleaf), (omod, oleaf) = mn.group(1).rsplit("::", 1), mo.group(1).rsplit("::", 1)
+            nmod = done.get("mod:" + nmod, "mod:" + nmod)[4:]      # (a module already recognised as renamed)
+            if nleaf == oleaf and nmod != omod:
+                votes.setdefault(nmod, {}).setdefault(omod, 0)
+                votes[nmod][omod] += 1
+            elif nmod == omod and nleaf != oleaf:
+                tvotes.setdefault(nmod + "::" + nleaf, {}).setdefault(mo.group(1), 0)
+                tvotes[nmod + "::" + nleaf][mo.group(1)] += 1
+        for tn, tally in tvotes.items():
+            if len(tally) == 1 and list(tally.values())[0] >= 2 and ("trait:" + tn) not in done:
+                to = list(tally)[0]
+                txt = _re.sub(r"(?<![A-Za-z0-9_:])" + _re.escape(tn) + r"(?![A-Za-z0-9_])", lambda mm: to, txt)
+                done["trait:" + tn] = "trait:" + to
+                grew = True
+        ref_mods = {a.rsplit("::", 1)[0] for a in anchor_names if "::" in a and not a.startswith("<")}
+        for nm, tally in votes.items():
+            if len(tally) == 1 and list(tally.values())[0] >= 2 and nm not in ref_mods and ("mod:" + nm) not in done:
+                om = list(tally)[0]
+                txt = _re.sub(r"(?<![A-Za-z0-9_:])" + _re.escape(nm) + r"::", lambda mm: om + "::", txt)
+                done["mod:" + nm] = "mod:" + om
+                grew = True
+    return txt, {k: v for k, v in done.items()}
 
 
 class Facts:
@@ -561,6 +655,7 @@ class Facts:
         # compiler; the function it defines is the same `Repr::f`.  Name it by its type, so that
         # moving an impl block between modules does not rename anything.
         txt = _INHERENT_IMPL.sub(lambda m: m.group(0) if m.group(0).split("::", 1)[0] in _FOREIGN_ROOTS else m.group(1) + "::", txt)
+        txt = _normalise_trait_impls(txt)
         self.renamed = {}
         if resolve_renames and _needs_resolution(txt):
             txt, self.renamed = globals()["resolve_renames"](txt)
